@@ -525,9 +525,15 @@ impl ChannelManager {
 
     let resource = transmitter.as_ref().map(|transmitter| transmitter.resource());
 
-    channel_inner
+    let notified = channel_inner
       .notify_member_left(&left_member_nid, resource, as_owner, router.c2s_router().local_domain().clone())
-      .await?;
+      .await;
+
+    // A requested LEAVE fails as a whole when it cannot be notified, but the removal of a user whose
+    // last connection is gone (no transmitter) must go through whatever the modulator says.
+    if transmitter.is_some() {
+      notified?;
+    }
 
     channel_inner.remove_member(&left_member_nid);
 
